@@ -25,6 +25,7 @@ package memory
 //@   ensures[ok] result1 == (forall i int :: 0 <= i && i < w ==> hist_has(addr + i))
 //@   ensures[width] result1 ==> width(result0) == w
 //@   ensures[value] result1 ==> val(result0) == hist_val(addr, w)
+//@   ensures[reads-only] heap_unchanged()
 
 //@ func (*Sparse).Missing
 //@   enum h in SPARSEHIST, w in LOADW
@@ -32,12 +33,14 @@ package memory
 //@   requires nowrap(addr, w)
 //@   ensures[wf] wfl(result.intvs)
 //@   ensures[set] forall x uint64 :: meml(result.intvs, x) == (addr <= x && x < addr + w && !hist_has(x))
+//@   ensures[reads-only] heap_unchanged()
 
 //@ func (*Sparse).Blocks
 //@   enum h in SPARSEHIST
 //@   input:m sparse_hist(h)
 //@   ensures[wf] wfl(result.intvs)
 //@   ensures[set] forall x uint64 :: meml(result.intvs, x) == hist_has(x)
+//@   ensures[reads-only] heap_unchanged()
 
 //@ func NewBytes
 //@   enum h in BLOCKLAYOUTS
@@ -53,6 +56,7 @@ package memory
 //@   ensures[width] result1 ==> width(result0) == w
 //@   ensures[value] result1 ==> val(result0) == hist_val(addr, w)
 //@   ensures[inputs-untouched] hist_inputs_unchanged()
+//@   ensures[reads-only] heap_unchanged()
 
 //@ func (*Bytes).Missing
 //@   enum h in BYTESHIST, w in LOADW
@@ -60,12 +64,14 @@ package memory
 //@   requires nowrap(addr, w)
 //@   ensures[wf] wfl(result.intvs)
 //@   ensures[set] forall x uint64 :: meml(result.intvs, x) == (addr <= x && x < addr + w && !hist_has(x))
+//@   ensures[reads-only] heap_unchanged()
 
 //@ func (*Bytes).Blocks
 //@   enum h in BYTESHIST
 //@   input:b bytes_hist(h)
 //@   ensures[wf] wfl(result.intvs)
 //@   ensures[set] forall x uint64 :: meml(result.intvs, x) == hist_has(x)
+//@   ensures[reads-only] heap_unchanged()
 
 //@ func (*Overlay).Load
 //@   enum h in OVERLAYHIST, w in LOADW
@@ -75,6 +81,7 @@ package memory
 //@   ensures[width] result1 ==> width(result0) == w
 //@   ensures[value] result1 ==> val(result0) == hist_val(addr, w)
 //@   ensures[base-untouched] hist_inputs_unchanged()
+//@   ensures[reads-only] heap_unchanged()
 
 //@ func (*Overlay).Missing
 //@   enum h in OVERLAYHIST, w in LOADW
@@ -82,9 +89,11 @@ package memory
 //@   requires nowrap(addr, w)
 //@   ensures[wf] wfl(result.intvs)
 //@   ensures[set] forall x uint64 :: meml(result.intvs, x) == (addr <= x && x < addr + w && !hist_has(x))
+//@   ensures[reads-only] heap_unchanged()
 
 //@ func (*Overlay).Blocks
 //@   enum h in OVERLAYHIST
 //@   input:o overlay_hist(h)
 //@   ensures[wf] wfl(result.intvs)
 //@   ensures[set] forall x uint64 :: meml(result.intvs, x) == hist_has(x)
+//@   ensures[reads-only] heap_unchanged()
